@@ -276,18 +276,18 @@ func (a *Analysis) ruleF2() {
 	for _, ret := range returnsOf(fn) {
 		if len(ret.Results) != 1 || ret.Results[0] != key.Instr.(ssa.Value) {
 			okRet = false
-			r.Bad("F2", fk+"/result", a.P.InstrPos(ret), "", "%s returns %s instead of the slice pbkdf2.Key returned: not (necessarily) a fresh 64-byte result", fk, ret.Results[0].String())
+			r.Bad("F2r", fk+"/result", a.P.InstrPos(ret), "", "%s returns %s instead of the slice pbkdf2.Key returned: not (necessarily) a fresh 64-byte result", fk, ret.Results[0].String())
 		}
 	}
 	if okRet {
-		r.OK("F2", fk+"/result", kp, "", "returns the fresh slice from pbkdf2.Key unchanged")
+		r.OK("F2r", fk+"/result", kp, "", "returns the fresh slice from pbkdf2.Key unchanged")
 	}
 	// nothing else happens to the result or arguments
 	for _, c := range e.Calls {
 		switch c.Callee {
 		case "golang.org/x/crypto/pbkdf2.Key", "(golang.org/x/text/unicode/norm.Form).String", "(golang.org/x/text/unicode/norm.Form).Bytes":
 		default:
-			r.Bad("F2", fk+"/extra-call", a.P.InstrPos(c.Instr), "", "%s also calls %s: the seed must be a function of the two NFKD forms only", fk, c.Callee)
+			r.Bad("F2n", fk+"/extra-call", a.P.InstrPos(c.Instr), "", "%s also calls %s: the seed must be a function of the two NFKD forms only", fk, c.Callee)
 		}
 	}
 	// non-interference
@@ -295,12 +295,12 @@ func (a *Analysis) ruleF2() {
 		bad, san := a.rawUses(p)
 		k := fk + "/raw/" + p.Name()
 		for _, b := range bad {
-			r.Bad("F2", k, a.P.InstrPos(b.Instr), "", "%s: %s — the seed can differ between arguments with equal NFKD forms", fk, b.What)
+			r.Bad("F2n", k, a.P.InstrPos(b.Instr), "", "%s: %s — the seed can differ between arguments with equal NFKD forms", fk, b.What)
 		}
 		if len(bad) == 0 && san == 0 {
-			r.Bad("F2", k, pos, "", "argument %s never reaches an NFKD normalisation", p.Name())
+			r.Bad("F2n", k, pos, "", "argument %s never reaches an NFKD normalisation", p.Name())
 		} else if len(bad) == 0 {
-			r.OK("F2", k, pos, "", "every use of %s is the operand of norm.NFKD (directly or after concatenation)", p.Name())
+			r.OK("F2n", k, pos, "", "every use of %s is the operand of norm.NFKD (directly or after concatenation)", p.Name())
 		}
 	}
 	// no validation
@@ -484,9 +484,9 @@ func (a *Analysis) ruleF3() {
 		reachSet := a.Gate2.Res.Reach[rd.Block()]
 		out := reachSet.MinusFinite(a.Gate2.Spec)
 		if !out.Empty() {
-			r.Bad("G2", fk+"/no-read-when-rejected", rdp, "", "the source is read with word counts %v that are (later) rejected: rejected counts must consume no randomness", out)
+			r.Bad("G2r", fk+"/no-read-when-rejected", rdp, "", "the source is read with word counts %v that are (later) rejected: rejected counts must consume no randomness", out)
 		} else {
-			r.OK("G2", fk+"/no-read-when-rejected", rdp, "", "the read is reached only with accepted counts %v", reachSet)
+			r.OK("G2r", fk+"/no-read-when-rejected", rdp, "", "the read is reached only with accepted counts %v", reachSet)
 		}
 	}
 	// (e) error handling
@@ -588,15 +588,15 @@ func (a *Analysis) ruleF3() {
 				var b BytesV
 				if c.Callee == "(*math/big.Int).SetBytes" {
 					b, _ = c.Args[1].(BytesV)
-					if b.Obj != nil {
-						if bc, ok := c.State[b.Obj].(BufC); ok {
-							b = bc.B
-						}
-					} else {
-						continue
-					}
 				} else {
 					b, _ = c.Args[0].(BytesV)
+				}
+				if b.Obj != nil {
+					if bc, ok := c.State[b.Obj].(BufC); ok {
+						b = bc.B
+					}
+				} else if c.Callee == "(*math/big.Int).SetBytes" {
+					continue // not the buffer (e.g. the digest byte)
 				}
 				n++
 				want := "read(val:" + R.Name() + ")"
@@ -824,9 +824,9 @@ func (a *Analysis) ruleS2() {
 				reach := a.Gate3.Res.Reach[b]
 				out := reach.MinusFinite(a.Gate3.Spec)
 				if a.Gate3.Res.Pre[b] || !out.Empty() {
-					r.Bad("S2", fk+"/gate-before-lookup", a.P.InstrPos(lk), "", "a word is looked up with a token count outside the BIP39 set (%v)", out)
+					r.Bad("S2a", fk+"/gate-before-lookup", a.P.InstrPos(lk), "", "a word is looked up with a token count outside the BIP39 set (%v)", out)
 				} else {
-					r.OK("S2", fk+"/gate-before-lookup", a.P.InstrPos(lk), "", "lookups happen only with an accepted token count")
+					r.OK("S2a", fk+"/gate-before-lookup", a.P.InstrPos(lk), "", "lookups happen only with an accepted token count")
 				}
 			}
 		}
@@ -854,11 +854,11 @@ func (a *Analysis) ruleS2() {
 					if lc.Const == nil && x.InLoop {
 						// unsupported language: the nil map makes every lookup fail (condition folded)
 						if ev.Kind == ekFresh || ev.Kind == ekUnknown && ev.NonNil {
-							r.OK("S2", key, xp, ctx.Name, "unsupported language: every lookup fails, a non-nil error is returned")
+							r.OK("S2e", key, xp, ctx.Name, "unsupported language: every lookup fails, a non-nil error is returned")
 							continue
 						}
 					}
-					r.Bad("S2", key, xp, ctx.Name, "with an accepted token count this exit is taken unconditionally and returns %v", x.Vals)
+					r.Bad(map[bool]string{true: "S2a", false: "S2e"}[ev.Kind == ekNil], key, xp, ctx.Name, "with an accepted token count this exit is taken unconditionally and returns %v", x.Vals)
 					continue
 				}
 				bv := first.Val.(BoolV)
@@ -867,7 +867,7 @@ func (a *Analysis) ruleS2() {
 				case "lookupok":
 					hit := first.Taken != bv.Neg
 					if hit {
-						r.Bad("S2", key, xp, ctx.Name, "exit taken when a token IS in the list returns %v", x.Vals)
+						r.Bad("S2a", key, xp, ctx.Name, "exit taken when a token IS in the list returns %v", x.Vals)
 						continue
 					}
 					seenClass["miss"] = true
@@ -877,48 +877,53 @@ func (a *Analysis) ruleS2() {
 							tokNamed = true
 						}
 					}
+					if ev.Kind == ekFresh || ev.Kind == ekSentinel || ev.Kind == ekWrap || ev.NonNil {
+						r.OK("S2a", key+"/non-nil", xp, ctx.Name, "unknown token ⇒ a non-nil error")
+					}
 					switch {
+					case ev.Kind == ekNil || ev.Kind == ekUnknown && !ev.NonNil:
+						r.Bad("S2a", key, xp, ctx.Name, "a token that is not in the list yields %v: the sentence can be accepted although a word is not in the list", ev)
 					case ev.Kind != ekFresh:
-						r.Bad("S2", key, xp, ctx.Name, "a token that is not in the list yields %v; it must be a non-nil error distinct from both sentinels", ev)
+						r.Bad("S2e", key, xp, ctx.Name, "a token that is not in the list yields %v; it must be a non-nil error distinct from both sentinels", ev)
 					case !tokNamed:
-						r.Bad("S2", key, xp, ctx.Name, "the error for an unknown token (%v) does not name the token", ev)
+						r.Bad("S2e", key, xp, ctx.Name, "the error for an unknown token (%v) does not name the token", ev)
 					default:
 						if k, ok := c.B.(StrV); !ok || k.Kind != skTok {
-							r.Bad("S2", key, xp, ctx.Name, "the looked-up key %v is not a token of the normalised input", c.B)
+							r.Bad("S2a", key, xp, ctx.Name, "the looked-up key %v is not a token of the normalised input", c.B)
 						} else {
-							r.OK("S2", key, xp, ctx.Name, "unknown token ⇒ fresh error naming the token (%q)", ev.Format)
+							r.OK("S2e", key, xp, ctx.Name, "unknown token ⇒ fresh error naming the token (%q)", ev.Format)
 						}
 					}
 				case "bigcmp", "intcmp":
 					if !x.AfterLoop {
-						r.Bad("S2", key, xp, ctx.Name, "checksum comparison before all tokens were looked up")
+						r.Bad("S2a", key, xp, ctx.Name, "checksum comparison before all tokens were looked up")
 						continue
 					}
 					eq := (c.Op == token.EQL) == (first.Taken != bv.Neg)
 					if c.Op != token.EQL && c.Op != token.NEQ {
-						r.Unk("S2", key, xp, ctx.Name, "exit controlled by %v", bv)
+						r.Unk("S2a", key, xp, ctx.Name, "exit controlled by %v", bv)
 						continue
 					}
 					if eq {
 						seenClass["accept"] = true
 						if ev.Kind == ekNil {
-							r.OK("S2", key, xp, ctx.Name, "checksums equal ⇒ nil")
+							r.OK("S2a", key, xp, ctx.Name, "checksums equal ⇒ nil")
 						} else {
-							r.Bad("S2", key, xp, ctx.Name, "a sentence with a correct checksum yields %v", ev)
+							r.Bad("S2a", key, xp, ctx.Name, "a sentence with a correct checksum yields %v", ev)
 						}
 					} else {
 						seenClass["checksum"] = true
 						if (ev.Kind == ekSentinel || ev.Kind == ekWrap) && ev.G == csSent && csSent != nil {
-							r.OK("S2", key, xp, ctx.Name, "checksums differ ⇒ %v", ev)
+							r.OK("S2e", key, xp, ctx.Name, "checksums differ ⇒ %v", ev)
 						} else {
-							r.Bad("S2", key, xp, ctx.Name, "a wrong checksum yields %v, which does not match ErrChecksumIncorrect", ev)
+							r.Bad(map[bool]string{true: "S2a", false: "S2e"}[ev.Kind == ekNil], key, xp, ctx.Name, "a wrong checksum yields %v, which does not match ErrChecksumIncorrect", ev)
 						}
 					}
 				default:
 					if ev.Kind == ekNil {
-						r.Bad("S2", key, xp, ctx.Name, "return nil under %v: acceptance must be decided by the checksum comparison alone", bv)
+						r.Bad("S2a", key, xp, ctx.Name, "return nil under %v: acceptance must be decided by the checksum comparison alone", bv)
 					} else {
-						r.Unk("S2", key, xp, ctx.Name, "exit controlled by %v is none of count-reject, unknown-token, checksum-reject, accept", bv)
+						r.Unk("S2a", key, xp, ctx.Name, "exit controlled by %v is none of count-reject, unknown-token, checksum-reject, accept", bv)
 					}
 				}
 			}
@@ -926,7 +931,7 @@ func (a *Analysis) ruleS2() {
 	}
 	for _, cl := range []string{"miss", "checksum", "accept"} {
 		if !seenClass[cl] {
-			r.Bad("S2", fk+"/class/"+cl, a.P.Pos(fn.Pos()), "", "CheckMnemonic has no %s exit", cl)
+			r.Bad(map[bool]string{true: "S2a", false: "S2e"}[cl == "accept"], fk+"/class/"+cl, a.P.Pos(fn.Pos()), "", "CheckMnemonic has no %s exit", cl)
 		}
 	}
 	r.Counts["S2.exits"] = nExit
@@ -1012,5 +1017,85 @@ func (a *Analysis) ruleS3() {
 			other = "shape not recognised"
 		}
 		r.Add("S3", fk, pos, "", Violated, "IsMnemonicValid is not exactly `CheckMnemonic(m, lang) == nil`: %s", other)
+	}
+}
+
+
+// finishE1 copies the E1 obligations into per-use rule names, so that a property depends
+// only on the variables its own argument relies on:
+//   E1enc — variables the encoder evaluations read (lists, masks)
+//   E1val — variables the validator evaluations read, plus the lookup maps and their guards
+//   E1src — the randomness source
+//   E1lst — the word lists and the lookup maps
+//   E1str — variables Language.String reads
+func (a *Analysis) finishE1() {
+	relied := map[string]map[string]bool{"E1enc": {}, "E1val": {}, "E1str": {}, "E1src": {}, "E1lst": {}}
+	name := func(g *ssa.Global) string { return "var/" + g.Pkg.Pkg.Name() + "." + g.Name() }
+	for key, e := range a.evals {
+		var cls string
+		switch {
+		case a.NME != nil && strings.HasPrefix(key, fnKey(a.NME)+"|"), a.NM != nil && strings.HasPrefix(key, fnKey(a.NM)+"|"):
+			cls = "E1enc"
+		case a.CM != nil && strings.HasPrefix(key, fnKey(a.CM)+"|"), a.IMV != nil && strings.HasPrefix(key, fnKey(a.IMV)+"|"):
+			cls = "E1val"
+		case a.Str != nil && strings.HasPrefix(key, fnKey(a.Str)+"|"):
+			cls = "E1str"
+		default:
+			continue
+		}
+		for g := range e.Relied {
+			relied[cls][name(g)] = true
+		}
+	}
+	for _, m := range a.MapOf {
+		relied["E1val"][name(m)] = true
+		relied["E1lst"][name(m)] = true
+		if l := a.MapList[m]; l != nil {
+			relied["E1val"][name(l)] = true
+		}
+	}
+	for _, d := range a.onceDoCalls() {
+		if d.Guard != nil {
+			relied["E1val"][name(d.Guard)] = true
+		}
+	}
+	for g := range a.G.Lists {
+		relied["E1lst"][name(g)] = true
+	}
+	if a.Source != nil {
+		relied["E1src"][name(a.Source)] = true
+	}
+	var extra []Obligation
+	for _, o := range a.R.Obls {
+		if o.Rule != "E1" {
+			continue
+		}
+		for cls, set := range relied {
+			if set[o.Key] {
+				c := o
+				c.Rule = cls
+				extra = append(extra, c)
+			}
+		}
+	}
+	a.R.Obls = append(a.R.Obls, extra...)
+	// T3 consistency: the map consulted for K is the inverse of the list the encoder uses for K
+	for _, lc := range a.langCtxs() {
+		if lc.Const == nil {
+			continue
+		}
+		m := a.MapOf[lc.Name]
+		if m == nil {
+			continue
+		}
+		ml, el := a.MapList[m], a.EncList[lc.Name]
+		switch {
+		case ml == nil || el == nil:
+			a.R.Unk("T3", "consistent/"+m.Name(), a.P.Pos(m.Pos()), "", "cannot relate the lookup map of %s to the list the encoder uses", lc.Name)
+		case ml != el:
+			a.R.Bad("T3", "consistent/"+m.Name(), a.P.Pos(m.Pos()), "", "%s mnemonics are encoded with %s but validated against the inverse of %s", lc.Name, el.Name(), ml.Name())
+		default:
+			a.R.OK("T3", "consistent/"+m.Name(), a.P.Pos(m.Pos()), "", "%s: encoder list and validator map both come from %s", lc.Name, el.Name())
+		}
 	}
 }
